@@ -8,7 +8,7 @@
      Record              results.add_theta(model.get_model_state())   (MCMC)  /  results.add_theta(theta)  (VI)
      SampleVI n          model.sample(num_samples=n)
    numpy: SeedSequence(seed).spawn(n)[i] is the SeedSequence (entropy = seed, spawn_key = (i,)) for 0 <= i < n,
-   python list indexing makes a negative i mean n + i; default_rng(seed) has (entropy = seed, spawn_key = ()).
+   python list indexing makes a negative i mean n + i; default_rng(seed) has (entropy = seed, spawn_key = ()) (pre-repair VI variant only).
    That a SeedSequence determines the PCG64 stream, and that distinct spawn keys give non-overlapping
    streams, is numpy's contract and is not modelled (the harness checks the first draws).
    The results holder is (n_thetas, current length): ThetaHolder.add_theta raises when full.
@@ -71,14 +71,17 @@ Fixpoint add_all (n_thetas : Z) (todo : nat) (len : Z) : result (list event * Z)
       else dor r <- add_all n_thetas todo' (len + 1); Ok (Record :: fst r, snd r)
   end.
 
-(* VI branch; [returned] = len(model.sample(num_samples=n_thetas)) (the VIModel contract says = n_thetas) *)
-Definition sample_vi (seed n_thetas len0 : Z) (returned : nat) : result (list event * Z) :=
-  if seed <? 0 then Err 2
-  else dor r <- add_all n_thetas returned len0;
-       Ok (Reset :: SetRng seed [] :: SampleVI n_thetas :: fst r, snd r).
+(* VI branch; [returned] = len(model.sample(num_samples=n_thetas)) (the VIModel contract says = n_thetas).
+   REPAIRED (fix PENDING, KNOWN_FINDINGS vi-chains-share-generator): the generator is derived exactly as in the MCMC
+   branch, SeedSequence(seed).spawn(n_chains)[chain_index]; n_burnin and thin are not read *)
+Definition sample_vi (seed n_chains chain_index n_thetas len0 : Z) (returned : nat) : result (list event * Z) :=
+  dor key <- rng_key seed n_chains chain_index;
+  dor r <- add_all n_thetas returned len0;
+  Ok (Reset :: SetRng (fst key) (snd key) :: SampleVI n_thetas :: fst r, snd r).
 
 (* the match statement: kind 0 = isinstance MCMCModel (tested first), 1 = VIModel, anything else refused;
-   None for any of n_chains, chain_index, n_burnin, thin is refused in the MCMC branch *)
+   None for any of n_chains, chain_index, n_burnin, thin is refused in the MCMC branch,
+   None for n_chains or chain_index in the VI branch *)
 Definition sample (kind seed : Z) (n_chains chain_index n_burnin thin : option Z) (n_thetas len0 : Z)
   (returned : nat) : result (list event * Z) :=
   if kind =? 0 then
@@ -86,8 +89,25 @@ Definition sample (kind seed : Z) (n_chains chain_index n_burnin thin : option Z
     | Some nc, Some ci, Some b, Some t => sample_mcmc seed nc ci b t n_thetas len0
     | _, _, _, _ => Err 5
     end
-  else if kind =? 1 then sample_vi seed n_thetas len0 returned
+  else if kind =? 1 then
+    match n_chains, chain_index with
+    | Some nc, Some ci => sample_vi seed nc ci n_thetas len0 returned
+    | _, _ => Err 5
+    end
   else Err 6.
+
+(* ---- the PRE-REPAIR variant of the VI branch, kept only for the witness C17_vi_streams_distinct_refuted; it is NOT
+   what the source says any more (C17_model_is_source is about [sample] above): model.reset_model();
+   rng = default_rng(seed); none of n_chains, chain_index, n_burnin, thin was read ---- *)
+Definition sample_vi_pre_repair (seed n_thetas len0 : Z) (returned : nat) : result (list event * Z) :=
+  if seed <? 0 then Err 2
+  else dor r <- add_all n_thetas returned len0;
+       Ok (Reset :: SetRng seed [] :: SampleVI n_thetas :: fst r, snd r).
+
+Definition sample_pre_repair (kind seed : Z) (n_chains chain_index n_burnin thin : option Z) (n_thetas len0 : Z)
+  (returned : nat) : result (list event * Z) :=
+  if kind =? 1 then sample_vi_pre_repair seed n_thetas len0 returned
+  else sample kind seed n_chains chain_index n_burnin thin n_thetas len0 returned.
 
 (* ---- observations on a trace (used to state the schedule) ---- *)
 Definition is_step (e : event) : bool := match e with Step => true | _ => false end.
@@ -124,8 +144,6 @@ Definition rng_of_spawned (s : seeds) (i : Z) : result rngkey :=
   if (0 <=? i) && (i <? n) then Ok (fst s, [i])
   else if (- n <=? i) && (i <? 0) then Ok (fst s, [n + i])
   else Err 4.
-(* default_rng(seed) *)
-Definition rng_of_seed (seed : Z) : result rngkey := if seed <? 0 then Err 2 else Ok (seed, []).
 (* the Theta objects themselves are abstracted *)
 Definition theta : Type := unit.
 Definition vi_samples (returned : nat) : list theta := repeat tt returned.
